@@ -26,7 +26,9 @@ class C09(C01):
     ]
     rule = ("random matching instances: 1-6 nodes with sparse ids, 1-10 add_edge calls incl. self-loops, antiparallel "
             "and overwritten edges, weights: integers, 1/3, 1e300, subnormals, 2^53+2, -0.0, uniform and random bit "
-            "patterns; non-trivial = at least 2 edges")
+            "patterns; the add_edge history (overwrites included) is replayed with edges()/outgoing_edges()/nodes() queried "
+            "in between and the built graph is observed through its public API; 10 % of the instances are written without "
+            "a file_name and written twice; non-trivial = at least 2 edges")
     anchors = [("preflibtools.instances.preflibinstance.matching", "MatchingInstance.parse"),
                ("preflibtools.instances.preflibinstance.matching", "MatchingInstance.write"),
                ("preflibtools.instances.preflibinstance.matching", "WeightedDiGraph.add_edge"),
